@@ -342,7 +342,7 @@ def run(ck):
         g = rec[0]
         it = g.generators[0].iter
         ok_rec = (isinstance(it, ast.Call) and call_name(it) == 'zip' and [u(a) for a in it.args] == ['wildcard_sequence', 'cg_sequence']
-                  and u(g.elt) == "wildcard if wildcard != '.' else cg" and not g.generators[0].ifs)
+                  and u(g.elt) in ("wildcard if wildcard != '.' else cg", "cg if wildcard == '.' else wildcard") and not g.generators[0].ifs)
     ck.ob('TAB-helix', mod.loc(conv), ok_rec, 'result takes the rewritten class where there is one and the table class elsewhere, position by position', key='TAB-helix|recombine')
     wd = [v for v in assignments_to(conv, 'wildcard_sequence') if any(isinstance(n, ast.GeneratorExp) for n in ast.walk(v))]
     ok_w = len(wd) == 1
